@@ -103,7 +103,7 @@ def gen_case(tp, tier):
         return {'prog': scenario_move(tp), 'knobs': kn, 'perturb': 1,
                 'family': 0, 'scenario': 'move'}
     feat = {'tempo_clocks': True, 'sends': tp.draw(2) == 0, 'bind': True,
-            'inf_wait': True,
+            'inf_wait': True, 'premake': True,
             'tempo_change': tp.draw(3) == 0,
             'sync': tp.draw(2) == 0, 'control': tp.draw(3) == 0,
             'draws': tp.draw(2) == 0, 'seeds': True}
@@ -200,7 +200,11 @@ def families(prog):
     for i, r in enumerate(prog['routines']):
         for st in r['body']:
             if st[0] in ('spawn', 'spawnd', 'embed', 'spawna'):
-                parent[st[1]] = i
+                parent.setdefault(st[1], i)
+    for i, r in enumerate(prog['routines']):
+        for st in r['body']:
+            if st[0] == 'make':
+                parent[st[1]] = i      # the generator comes from the maker
     fam = {}
     for i, r in enumerate(prog['routines']):
         j = i
